@@ -205,6 +205,7 @@ func (r descsByName) initExtensionDeclarations(xds []*descriptorpb.FieldDescript
 		if opts := xd.GetOptions(); opts != nil {
 			opts = proto.Clone(opts).(*descriptorpb.FieldOptions)
 			x.L2.Options = func() protoreflect.ProtoMessage { return opts }
+			x.L1.IsLazy = opts.GetLazy()
 			if opts.Packed != nil {
 				x.L1.EditionFeatures.IsPacked = opts.GetPacked()
 			}
